@@ -111,6 +111,45 @@ def RespAct.sanitized : RespAct → RespAct
   | .modResp h b s => .modResp (sanitizeHdrs h) b s
   | .retry h => .retry (sanitizeHdrs h)
 
+/-! ### Bytes
+
+Go strings are byte strings and need not be valid UTF-8.  A model `String` stands for a byte
+string: the character with code `b < 256` stands for the byte `b` (`ofBytes` / `toBytes`; the
+driver decodes the percent-encoded bytes of the line protocol exactly this way).  The byte-level
+reading of the header dump: -/
+
+abbrev Bytes := List UInt8
+
+def byteChar (b : UInt8) : Char := Char.ofNat b.toNat
+def charByte (c : Char) : UInt8 := UInt8.ofNat c.toNat
+def ofBytes (bs : Bytes) : String := String.ofList (bs.map byteChar)
+def toBytes (s : String) : Bytes := s.toList.map charByte
+
+/-- RFC 7230 `tchar` as a byte. -/
+def isTcharB (b : UInt8) : Bool :=
+  (0x30 ≤ b && b ≤ 0x39) || (0x41 ≤ b && b ≤ 0x5A) || (0x61 ≤ b && b ≤ 0x7A) ||
+  [0x21, 0x23, 0x24, 0x25, 0x26, 0x27, 0x2A, 0x2B, 0x2D, 0x2E, 0x5E, 0x5F, 0x60, 0x7C, 0x7E].contains b
+
+def validNameB (k : Bytes) : Bool := k != [] && k.all isTcharB
+
+/-- Sanitising on bytes: entries whose name is not a token are dropped, the bytes 0x0D and 0x0A are
+    dropped from values, everything else is kept byte for byte. -/
+def sanitizeB (h : List (Bytes × Bytes)) : List (Bytes × Bytes) :=
+  (h.filter fun kv => validNameB kv.1).map fun kv => (kv.1, kv.2.filter fun b => b != 0x0D && b != 0x0A)
+
+/-- The dump of a list of entries, byte for byte: `name 0x3A value 0x0A` each; `0x0A` alone if none. -/
+def dumpSpecB : List (Bytes × Bytes) → Bytes
+  | [] => [0x0A]
+  | p :: ps => (p :: ps).flatMap fun kv => kv.1 ++ 0x3A :: kv.2 ++ [0x0A]
+
+/-- `DumpHeaders` on byte strings (through the model). -/
+def dumpB (h : List (Bytes × Bytes)) : Bytes :=
+  toBytes (dumpHeaders (h.map fun kv => (ofBytes kv.1, ofBytes kv.2)))
+
+/-- Reading a dump back, on byte strings. -/
+def parseB (bs : Bytes) : List (Bytes × Bytes) :=
+  (parseHeaders (ofBytes bs)).map fun kv => (toBytes kv.1, toBytes kv.2)
+
 /-! ### Decoding the SPOE variables -/
 
 def getVar (sc : Scope) (name : String) (vs : List SVar) : Option SVal :=
